@@ -15,6 +15,18 @@ PROPS = {
     },
 }
 
+PROPS["C03"] = {
+    "harness": "limsim", "test": "TestC03", "quick_s": 30, "thorough_s": 900, "batch": 100,
+    "rule": "one evaluation = one simulated history against the real ratelimit.TokenLimiter under the simulated clock: drawn rate set (1-3 periods), "
+            "1-8 sources within capacity, 20-400 requests arranged in phases (burst at one instant, sustained traffic at 0.5x-20x the rate for up to 40 periods, "
+            "exact pacing, mixed clock steps around every configured duration, idle gaps up to 100 days); oracle = exact-integer interval bound over all pairs of "
+            "admitted requests per source and rate; non-trivial = at least two admissions and one rejection; distinct = hash of the admitted (source,time,amount) sequence",
+    "technique": "deterministic simulation: seeded arrival histories over a simulated clock (time-driven entry-expiry as the fault), exact-integer interval-bound oracle over the recorded admission history",
+    "level_text": "seeded search over arrival histories, rate configurations and clock steps of the real TokenLimiter with its TTL map; sampled, not exhaustive; failures minimised and replayable",
+    "level_note": "trusted: holsterv4 frozen clock as the only time source (grep finds no other time read in non-test code), rapid; 'period/average' is read as Go does (a Duration divided by a count); no concurrency in this check (C09/C14 cover it)",
+    "assumptions": ["all time reads of the limiter go through internal/holsterv4/clock", "only forward clock steps"],
+}
+
 PENDING = "check not built yet in this session (planned, see DESIGN.md section 4); not claimed until its harness exists"
 NOT_APPLICABLE = {pid: PENDING for pid in ["C%02d" % i for i in range(1, 21)]}
 NOT_APPLICABLE["C19"] = ("pure function of one request's RemoteAddr/Host/header to a token: no schedule, clock, fault, I/O or multi-party behaviour for a "
